@@ -62,7 +62,7 @@ Budget == IF mode = "sparse" THEN K ELSE 0   \* cap / overcap walks carry no opt
 \* omissions).  It reaches the places where an optional sequence or a transaction stands with only SOME of its
 \* fields, e.g. a settlement sequence whose first remaining field is its third optional one.
 CoFull == mode = "cofull"
-KCo == 2
+KCo == 3
 \* ... and only fields of an OPTIONAL sequence (LB with min = 0) are omitted: that is where a sequence can
 \* stand with only some of its fields while everything around it is present
 InOptionalSeq(i) == \E b \in 1..(i - 1) : L[b].k = "LB" /\ L[b].min = 0 /\ EndOf(L, b) > i
